@@ -148,6 +148,9 @@ class FakeConn:
     def shutdown(self, how):
         if self.closed:
             raise OSError(errno.EBADF, "Bad file descriptor")
+        if getattr(self, "rst", False):
+            # the connection was reset by its peer: the kernel has nothing left to shut down (the descriptor stays open)
+            raise OSError(errno.ENOTCONN, "Transport endpoint is not connected")
         self.shut = True
 
     def close(self):
